@@ -70,3 +70,5 @@ def run(repo, res, tier):
     _lr3.rule_g2(repo, res, _lr3.analyse(repo), directions=("decoder-only",))
     from .. import apirules as _ap3
     _ap3.rule_re_flag_pos(repo, res)
+    from .. import hookrules as _hkpa
+    _hkpa.rule_parse_append(repo, res)
